@@ -171,9 +171,48 @@ KERNELS += [
                 (r"get_view_mashing_factor\(\)", "self->view_mashing_factor", (2, 4)), (r"get_tof_mash_factor\(\)", "self->tof_mash_factor", (4, 10)), BINF]),
 ]
 
+
+KERNELS += [
+    dict(name="K_cti_segments", file="src/buildblock/ProjDataInfo.cxx", cxx_name="ProjDataInfo::ProjDataInfoCTI: span/max_delta -> per-segment vectors (statement kernel)",
+         func=r"ProjDataInfo::ProjDataInfoCTI\(const shared_ptr<Scanner>& scanner,", c_header="void K_cti_segments(const int num_ring, const int span, const int max_delta)",
+         span=(r"const int num_ring = scanner->get_num_rings\(\);", r"\(2 \* num_ring - 1 - 2 \* RDmintmp\[i\]\);\s*\}\s*\}"), loops=4,
+         rules=[(r"const int num_ring = scanner->get_num_rings\(\);", "", 1), (r"error\(boost::format\([^;]*;", "K_THROW_VOID;", 4),
+                (r"vector<int> RD(min|max)tmp\(num_ring\);", r"short RD\1tmp[CTI_MAXR]; /* vector<int>; held as short: every entry is bounded by num_ring + span (conversion checked at each store) */", 2),
+                (r"warning\(boost::format\([^;]*;", "(void)0;", 1),
+                (r"VectorWithOffset<int> (?:num_axial_pos_per_segment|min_ring_difference|max_ring_difference)\(([^;]*)\);", r"OUT_RANGE(\1);", 3),
+                (r"num_axial_pos_per_segment\[i\] = num_axial_pos_per_segment\[-i\] = ([^;]+);",
+                 r"{ const int K_v = (\1); OUT_WRITE(num_axial_pos_per_segment, i, K_v); OUT_WRITE(num_axial_pos_per_segment, -i, K_v); }", 2),
+                (r"(?<![\w.])(num_axial_pos_per_segment|min_ring_difference|max_ring_difference)\[([^\]]+)\] = ([^;]+);", r"OUT_WRITE(\1, \2, \3);", 8),
+                (r"(?<!short )RD(min|max)tmp\[([^\]]+)\]", r"RD\1tmp[VIDX(\2)]", (15, 30))]),
+]
+
+
+RDA = r"ProjDataInfoCylindrical::initialise_ring_diff_arrays\(\) const"
+KERNELS += [
+    dict(name="K_rda_m_offset", file=CYL_CXX, cxx_name="initialise_ring_diff_arrays: m_offset statement", func=RDA,
+         span=(r"m_offset\[segment_num\]\s*=\s*\(\(get_max_axial_pos_num", r";"),
+         c_header="float K_rda_m_offset(const int min_ax, const int max_ax, const float ring_spacing, const int inc)", loops=0,
+         rules=[(r"m_offset\[segment_num\]\s*=", "const float K_m =", 1), (r"get_max_axial_pos_num\(segment_num\)", "max_ax", 1),
+                (r"get_min_axial_pos_num\(segment_num\)", "min_ax", 1), (r"get_axial_sampling\(segment_num\)", "K_axial_sampling(ring_spacing, inc)", 1)],
+         post="return K_m;", disable_checks=["float-overflow"]),
+    dict(name="K_rda_ax_offset", file=CYL_CXX, cxx_name="initialise_ring_diff_arrays: ax_pos_num_offset statement", func=RDA,
+         span=(r"ax_pos_num_offset\[segment_num\] = round\(", r";"),
+         c_header="int K_rda_ax_offset(const int num_rings, const float m_off, const float ring_spacing)", loops=0,
+         rules=[(r"ax_pos_num_offset\[segment_num\] = round\(", "const int K_o = K_round_value(", 1), (r"m_offset\[segment_num\]", "m_off", 1)],
+         post="return K_o;"),
+    dict(name="K_rda_rpr", file=CYL_CXX, cxx_name="initialise_ring_diff_arrays: ring1_plus_ring2 statements", func=RDA,
+         span=(r"const float ring1_plus_ring2_float = ", r"const int ring1_plus_ring2 = [^;]*;"),
+         c_header="int K_rda_rpr(const int ax_pos_num, const int inc, const float m_off, const float ring_spacing, const int num_rings)", loops=0,
+         rules=[(r"get_num_axial_poss_per_ring_inc\(s_num\)", "inc", 1), (r"m_offset\[s_num\]", "m_off", 1),
+                (r"get_scanner_ptr\(\)->get_num_rings\(\)", "num_rings", 1), (r"(?<![\w:])round\(", "K_round_value(", (0, 1)),
+                (r"static_cast<int>\(", "CAST(int, ", (0, 1))],
+         post="return ring1_plus_ring2;"),
+]
+
 TOF_MASH = {"quick": [0, 1, 2, 3, 5, 7, 11, 13, 25, 27], "thorough": [0] + list(range(1, 65)) + [117, 351, 1023]}
 ALLPAIRS = {"quick": [(1, 0, 1), (1, 1, 2), (2, 3, 5), (4, 5, 2), (1, 2, 1), (2, 4, 2), (2, 3, 0)],
             "thorough": [(m, f, r) for m in (1, 2, 4, 8) for f in (0, 1, 2, 3, 4, 5, 6, 7, 9, 11, 13) for r in (0, 1, 2, 3, 7)]}
+SPANS = {"quick": [1, 2, 3, 5, 7, 11], "thorough": list(range(1, 16)) + [21, 27]}
 CHK = ["--signed-overflow-check", "--div-by-zero-check", "--bounds-check", "--pointer-check", "--conversion-check"]
 
 
@@ -195,6 +234,27 @@ def scanner_ring_sizes(repo):
     return sorted(v for v in vals if v % 2 == 0 and 2 <= v <= 4096)
 
 
+def scanner_ring_spacings(repo):
+    """Distinct ring spacings (mm) of the predefined scanners, scraped from Scanner.cxx (third float argument after num_detectors_per_ring)."""
+    src = extract.strip_comments(open(os.path.join(repo, "src/buildblock/Scanner.cxx")).read())
+    vals = set()
+    for m in re.finditer(r"set_params\(\s*\w+\s*,\s*string_list\([^;]*?\)\s*,([^;]*?)\);", src, flags=re.S):
+        args = [a.strip() for a in m.group(1).split(",")]
+        fl = next((i for i, a in enumerate(args) if re.search(r"\d\.|\dF|\.\d", a)), None)
+        if fl is None or fl + 2 >= len(args):
+            continue
+        a2 = re.sub(r"(?<=[\d.])F\b", "", args[fl + 2])
+        if not re.fullmatch(r"[\d\s+*/().]+", a2):
+            continue
+        try:
+            v = float(eval(a2, {"__builtins__": {}}, {}))
+        except Exception:
+            continue
+        if 0.1 <= v <= 100:
+            vals.add(round(v, 6))
+    return sorted(vals)
+
+
 _SIZES = {}
 
 
@@ -203,6 +263,11 @@ def extra_gen(repo, gen_dir, metas):
     if len(sizes) < 10:
         raise extract.ExtractionError("Scanner.cxx: only %d predefined ring sizes scraped (expected >= 10)" % len(sizes))
     _SIZES["scanner"] = sizes
+    sp = scanner_ring_spacings(repo)
+    if len(sp) < 8:
+        raise extract.ExtractionError("Scanner.cxx: only %d predefined ring spacings scraped (expected >= 8)" % len(sp))
+    _SIZES["spacing"] = sp
+    metas.append({"kernel": "parameter scrape", "file": "src/buildblock/Scanner.cxx", "function": "predefined scanners: ring spacing (mm)", "values": sp})
     metas.append({"kernel": "parameter scrape", "file": "src/buildblock/Scanner.cxx", "function": "predefined scanners: detectors per ring",
                   "values": sizes})
 
@@ -267,6 +332,17 @@ def jobs(tier, gen_dir):
                 defines={"C01_N": 16, "C01_M": M, "C01_F": F, "C01_R": R},
                 params={"num_detectors_per_ring": 16, "view_mashing": M, "tof_mash_factor": F, "num_ring_pairs": R},
                 object_bits=10)
+    # span -> segments (ProjDataInfoCTI): one proof per span, number of rings and max_delta symbolic
+    for SP in SPANS[tier]:
+        enforce("K_cti_segments", "/span=%d" % SP, lc=True, defines={"C01_N": 16, "C01_SPAN": SP}, params={"span": SP}, object_bits=10)
+    # float block of initialise_ring_diff_arrays: ring spacing constant per job (every predefined scanner's value + a few others), ints symbolic
+    spacings = _SIZES.get("spacing", []) + [1.0, 2.0, 3.0, 0.7, 12.5]
+    if tier == "quick":
+        spacings = [4.85, 6.3, 3.0]
+    for sp in sorted(set(spacings)):
+        out.append(Job("c01/lemma_rpr/spacing=%g" % sp, HARNESS, "h_lemma_rpr", kind="lemma", kernels=["K_rda_m_offset", "K_rda_ax_offset", "K_rda_rpr", "K_round_float"],
+                       flags=CHK + ["--float-overflow-check", "--nan-check"], no_base_flags=True, defines={"C01_N": 16, "C01_SPACING": "%rf" % sp},
+                       params={"ring_spacing": sp, "domain": "num_rings <= 128, axial positions < 256"}, min_obligations=3, timeout=900, backend=os.environ.get("C01_RPRB", "kissat")))
     # TOF mashing factor: constant per job (float division by a constant), every other input symbolic
     for F in TOF_MASH[tier]:
         enforce("K_get_bin_for_det_pos_pair", "/N=16/F=%d" % F, lc=False, repl=["K_get_bin_for_det_pair"], defines={"C01_N": 16, "C01_F": F},
@@ -313,6 +389,10 @@ def replay(job, o, workroot, repo):
         for c in ((0, 1, F), (0, M, F), (16, M, 0), (16, 1, 0), (24, 3, 0), (0, 1, 3), (0, 2, 2)):
             if c[2] > 0 or c[0] > 0:
                 cands.append(["allpairs"] + list(c))
+    elif "lemma_rpr" in name:
+        for nm in ("ECAT 962", "ECAT 966", "Allegro", "Discovery MI3", "HYPERimage", "ECAT 953"):
+            for sp in (1, 3, 7):
+                cands.append(["ringsn", nm, sp, -1])
     elif re.search(r"ring|K_compute|K_get_segment|K_get_num_axial", name) and "num_pair" not in name:
         for c in ((16, 3, 15), (16, 1, 15), (24, 7, 20), (16, 5, 15), (32, 9, 31), (8, 3, 7), (45, 11, 44), (18, 3, 17), (4, 1, 3)):
             cands.append(["rings"] + list(c))
@@ -320,7 +400,7 @@ def replay(job, o, workroot, repo):
         F = job.params.get("tof_mash_factor")
         for f in ([F] if isinstance(F, int) else []) + [1, 3, 5, 2, 7, 9, 11, 13, 0]:
             cands.append(["tof", f])
-    if not cands or ("det_pos_pairs_for_bin" not in name and ("lemma" in name or "init" in name or "vt" in name or "det_pair" in name or "bin" in name)):
+    if not cands or ("det_pos_pairs_for_bin" not in name and "lemma_rpr" not in name and ("lemma" in name or "init" in name or "vt" in name or "det_pair" in name or "bin" in name)):
         sizes = ([N] if isinstance(N, int) else []) + [16, 6, 4, 2, 64, 30]
         for n in sizes:
             cands.append(["tables", n])
